@@ -33,7 +33,8 @@ TNew == /\ e.op = "new" /\ UNCHANGED st
         /\ State(st) /\ Adv
 TQ == /\ e.op = "q" /\ AddQuestion([name |-> e.name, type |-> e.type, cls |-> e.cls])
       /\ Outcome(st') /\ State(st') /\ Adv
-TRr == /\ e.op = "rr" /\ AddRRset(e.sec, MkRRset(e, Cmp, ClsIN))
+Zc == IF Hdr.opcode = OpUpdate THEN Hdr.zcls ELSE ClsIN
+TRr == /\ e.op = "rr" /\ AddRRset(e.sec, MkRRset(e, Cmp, Zc))
        /\ Outcome(st') /\ State(st') /\ Adv
 TOpt == /\ e.op = "opt"
         /\ Check(t, l, "OptTtl", e.ttl = HdrOpt(Hdr).ttl)
@@ -59,7 +60,7 @@ Flat(rss) == IF rss = <<>> THEN <<>>
 RRIs(p, x) ==
     LET d == IF IsUpdate THEN DeletingOf(x.sec, x.cls) ELSE 0 IN
     /\ NameEqCI(p.name, x.name) /\ p.type = x.type /\ p.ttl = x.ttl
-    /\ (IF d # 0 THEN p.cls = ClsIN /\ p.del = d ELSE p.cls = x.cls /\ p.del = 0)
+    /\ (IF d # 0 THEN p.cls = Zc /\ p.del = d ELSE p.cls = x.cls /\ p.del = 0)
     /\ MatchItemsCI(p.rd, 0, x.items)
 SectionIs(rss, s) == LET f == Flat(rss) b == Body(s) IN
     Len(f) = Len(b) /\ \A i \in 1..Len(b) : RRIs(f[i], b[i])
@@ -67,24 +68,29 @@ QuestionIs(rss) ==
     /\ Len(rss) = Len(st.qs)
     /\ \A i \in 1..Len(rss) : /\ NameEqCI(rss[i].name, st.qs[i].name) /\ rss[i].type = st.qs[i].type
                               /\ rss[i].cls = st.qs[i].cls /\ rss[i].rds = <<>>
-HeaderIs(m) ==
+\* padded: the message was rendered with EDNS padding, so the parsed OPT carries one more
+\* option (code 12, all zeros; its length is fixed by the size clauses on the octets)
+HeaderIs(m, padded) ==
     /\ m.id = Hdr.id /\ m.flags = HdrFlags(Hdr) /\ m.opcode = Hdr.opcode /\ m.rcode = Hdr.rcode
     /\ IF Hdr.edns[1] = "none" THEN m.edns = -1 /\ m.eflags = <<0, 0>> /\ m.payload = 0 /\ m.options = <<>>
-       ELSE /\ m.edns = Hdr.edns[2] /\ m.eflags = HdrOpt(Hdr).ttl /\ m.payload = Hdr.edns[4]
-            /\ Len(m.options) = Len(Hdr.edns[5])
-            /\ \A i \in 1..Len(m.options) : /\ m.options[i][1] = Hdr.edns[5][i][1]
-                                            /\ m.options[i][2] = Fill(Hdr.edns[5][i][2], Hdr.edns[5][i][3])
-MessageIs(m) == HeaderIs(m) /\ QuestionIs(m.sections[1]) /\ \A s \in 1..3 : SectionIs(m.sections[s + 1], s)
+       ELSE LET n == Len(Hdr.edns[5]) IN
+            /\ m.edns = Hdr.edns[2] /\ m.eflags = HdrOpt(Hdr).ttl /\ m.payload = Hdr.edns[4]
+            /\ Len(m.options) = n + (IF padded THEN 1 ELSE 0)
+            /\ \A i \in 1..n : /\ m.options[i][1] = Hdr.edns[5][i][1]
+                                /\ m.options[i][2] = Fill(Hdr.edns[5][i][2], Hdr.edns[5][i][3])
+            /\ padded => /\ m.options[n + 1][1] = 12
+                          /\ \A j \in 1..Len(m.options[n + 1][2]) : m.options[n + 1][2][j] = 0
+MessageIs(m, padded) == HeaderIs(m, padded) /\ QuestionIs(m.sections[1]) /\ \A s \in 1..3 : SectionIs(m.sections[s + 1], s)
 
 TMsg == /\ e.op = "msg" /\ UNCHANGED st
         /\ Check(t, l, "RendersAndParses", e.res = "ok")
         /\ Check(t, l, "MessageWire", WireIs(e.wire, st.id, st.flags, st.qs, st.xs))
         /\ Check(t, l, "SameAsLowLevel", e.wire = st.out)
-        /\ Check(t, l, "ParsedHeader", HeaderIs(e.parsed))
-        /\ Check(t, l, "ParsedRecords", MessageIs(e.parsed))
+        /\ Check(t, l, "ParsedHeader", HeaderIs(e.parsed, Hdr.pad > 0))
+        /\ Check(t, l, "ParsedRecords", MessageIs(e.parsed, Hdr.pad > 0))
         /\ Check(t, l, "ReRenderIdentical", e.wire2 = e.wire)
-        /\ Check(t, l, "BuiltMessageIsTheScript", /\ HeaderIs(e.orig) /\ QuestionIs(e.orig.sections[1])
-                                                   /\ (e.mode = "direct" => MessageIs(e.orig)))
+        /\ Check(t, l, "BuiltMessageIsTheScript", /\ HeaderIs(e.orig, FALSE) /\ QuestionIs(e.orig.sections[1])
+                                                   /\ (e.mode = "direct" => MessageIs(e.orig, FALSE)))
         /\ Check(t, l, "ParsedEqualsOriginal", e.eq)
         /\ Adv
 
